@@ -273,6 +273,38 @@ def apply_fault(sess, a):
             b = bio.BIOGEME(d, e_, parameters=params())
             return b.calculate_likelihood([0.1] * len(b.free_beta_names), scaled=False)
         ok, engine, e = expect_error(sess, f'data variables outside the trajectory on panel data (formula {fi})', f)
+    elif kind == 'panel_outside_mc':
+        # on panel data, a data variable inside the Monte-Carlo operator but outside the trajectory
+        t = sess.tables[dbi].copy().sort_values('ch', kind='stable').reset_index(drop=True)
+        d = db.Database('panmc', t)
+        d.panel('ch')
+
+        def f():
+            fb = ref.Builder(eb.beta_specs(), pool=sess.pool, share_elementary=False)
+            xi = ex.bioDraws('xi_p', 'NORMAL')
+            inner = ex.exp(-0.1 * (fb.build(['beta', 'b0']) + 0.1 * xi) * ex.Variable('c0'))
+            e_ = ex.log(ex.MonteCarlo(ex.PanelLikelihoodTrajectory(inner) * ex.exp(0.01 * ex.Variable('c1'))))
+            p_ = params()
+            p_.set_value('number_of_draws', 4)
+            b = bio.BIOGEME(d, e_, parameters=p_)
+            return b.calculate_likelihood([0.1] * len(b.free_beta_names), scaled=False)
+        ok, engine, e = expect_error(sess, 'data variable inside MonteCarlo but outside the trajectory on panel data', f)
+    elif kind == 'nests_overlap_far':
+        from biogeme.nests import OneNestForNestedLogit, NestsForNestedLogit
+        from biogeme import models
+
+        def f():
+            mus = [ex.Beta(f'mu{i}', 1.2 + 0.1 * i, 1, 10, 0) for i in range(3)]
+            # the first and the LAST nest share alternative 2 (not adjacent in the list)
+            nests = NestsForNestedLogit([1, 2, 3, 4, 5], (OneNestForNestedLogit(mus[0], [1, 2], 'a'),
+                                                          OneNestForNestedLogit(mus[1], [3, 4], 'b'),
+                                                          OneNestForNestedLogit(mus[2], [2, 5], 'c')))
+            fb = ref.Builder(eb.beta_specs(), pool=sess.pool, share_elementary=False)
+            utils = {1: fb.build(['beta', 'b0']), 2: fb.build(['*', ['beta', 'b1'], ['var', 'c0']]), 3: fb.build(['num', 0.0]),
+                     4: fb.build(['beta', 'b2']), 5: fb.build(['var', 'c1'])}
+            lp = models.lognested(utils, None, nests, ex.Variable('ch'))
+            return lp.get_value_c(database=sess.dbs[dbi], aggregation=True, prepare_ids=True)
+        ok, engine, e = expect_error(sess, 'nests_overlap_far', f)
     elif kind in ('nests_overlap', 'nests_outside'):
         from biogeme.nests import OneNestForNestedLogit, NestsForNestedLogit
         from biogeme import models
